@@ -17,6 +17,15 @@ def build_ops(R):
         pool.append((m, "canon", b"pw", S.CANON[m]))
     pool += [("generic", "null-phrase", None, b"$1$x"), ("generic", "long", b"y" * 600, b"$1$x"), ("generic", "badchar", b"pw", b"$6$a:b"),
              ("generic", "token", b"pw", b"*0"), ("generic", "unknown", b"pw", b"$zz$")]
+    # fixed coverage first, whatever the seed: the FIRST call on an object the application filled (0xff / random / pattern), for every method and
+    # a short and a long phrase, next to the same request on a zeroed object - do_crypt wipes the scratch area on return, so only a first call
+    # sees foreign contents (seeded/C07b, C04c); the random histories below reach the same situation only by chance
+    long_ph = b"a phrase longer than eight bytes"
+    for m in S.METHODS:
+        for ph in (b"pw", long_ph):
+            for fill in "zfrp":
+                ops.append("O 0 %s %d %d" % (fill, R.rng.randrange(16), R.rng.randrange(1 << 30))); meta.append(("setup", "obj", 0, 0))
+                ops.append(CS.crypt_op("r" if fill in "zf" else "rn", 0, ph, S.CANON[m])); meta.append((m, "first-call-on-filled-object", len(ph), len(S.CANON[m])))
     for h in range(nhist):
         n = R.rng.randrange(5, 61)
         nobj = R.rng.randrange(1, 4)
